@@ -43,7 +43,16 @@
 (*  - mkdir failures and errors of Close are not modelled.                 *)
 (*  - connectivity: a blob's fetcher is healthy (conn) until BreakConn(n)  *)
 (*    breaks every fetcher of that name that exists now; Refresh installs  *)
-(*    a new one (config CheckAlways: every Check asks the fetcher).        *)
+(*    a new one.                                                           *)
+(*  - blob.Check and valid_interval: instead of wall-clock time a blob is  *)
+(*    "fresh" from the moment lastCheck is stamped (makeBlob, a probe that *)
+(*    succeeded, Refresh) until the environment action Tick lets the       *)
+(*    interval elapse (for every blob at once). A fresh blob passes Check  *)
+(*    without a probe; otherwise the fetcher is probed and lastCheck is    *)
+(*    stamped only if the probe succeeded. A data fetch that succeeds      *)
+(*    stamps too; with the driver's blob (one chunk) the only fetch of a   *)
+(*    blob object is the first metadata open (the fake registry serves     *)
+(*    data also over a "broken" connection, only its probe fails).         *)
 (***************************************************************************)
 EXTENDS Integers, Sequences, FiniteSets, TLC
 
@@ -65,13 +74,15 @@ CONSTANTS
     CleanupOnFailure,     \* a failed Resolve closes the caches it made and releases the blob
     IdentityEvict,        \* an evicting release deletes the map entry only if it is this very instance
     CloseReleasesBlob,    \* layer.close releases the layer's blob reference
-    CloseFiles            \* closing a cache closes the files it keeps open
+    CloseFiles,           \* closing a cache closes the files it keeps open
+    StampOnlyOnSuccess    \* blob.Check stamps lastCheck only after a probe that succeeded (FALSE: before the probe)
 
 VARIABLES
     lock,     \* [Names -> holder | 0]       namedmutex
     lc, bc,   \* [Names -> id | 0]           layerCache.m, blobCache.m
     layers,   \* Seq [name, blob, bheld, refs, fin, closed, meta, fsd, files]   id = index, by creation
-    blobs,    \* Seq [name, refs, fin, closed, hd, conn, files]
+    blobs,    \* Seq [name, refs, fin, closed, hd, conn, fresh, bad, fetched, files]; bad (history) = a probe failed and
+              \*     the connection has not been seen working or been refreshed since
     fsd, hd,  \* Seq BOOLEAN: directories ever made under <root>/fscache, <root>/httpcache; TRUE = exists
     hs,       \* [1..NH -> [pc, n, l, b, fd, hdp]]
     nres, nfault,
@@ -147,9 +158,12 @@ Init ==
     /\ layers = <<>> /\ blobs = <<>> /\ fsd = <<>> /\ hd = <<>>
     /\ hs = [h \in H |-> Idle]
     /\ nres = 0 /\ nfault = 0
-    /\ last = [act |-> "Init", h |-> 0, n |-> NoName, arg |-> TRUE, ok |-> TRUE, ret |-> ""]
+    /\ last = [act |-> "Init", h |-> 0, n |-> NoName, arg |-> TRUE, ok |-> TRUE, ret |-> "", cb |-> 0]
 
-Obs(a, h, n, arg, ok, ret) == last' = [act |-> a, h |-> h, n |-> n, arg |-> arg, ok |-> ok, ret |-> ret]
+\* cb: the blob whose connectivity the step checked / refreshed (0: none)
+ObsC(a, h, n, arg, ok, ret, cb) ==
+    last' = [act |-> a, h |-> h, n |-> n, arg |-> arg, ok |-> ok, ret |-> ret, cb |-> cb]
+Obs(a, h, n, arg, ok, ret) == ObsC(a, h, n, arg, ok, ret, 0)
 At(h, pc) == hs[h].pc = pc
 Go(h, pc) == hs' = [hs EXCEPT ![h].pc = pc]
 Unlock(h) == lock' = [lock EXCEPT ![hs[h].n] = IF @ = h THEN 0 ELSE @]
@@ -178,18 +192,25 @@ LayerCacheGet(h) ==
         /\ Obs("LayerCacheGet", h, n, TRUE, lc[n] # 0, "")
     /\ UNCHANGED <<lock, lc, bc, blobs, fsd, hd, nres, nfault>>
 
-BlobHealthy(b) == ~blobs[b].closed /\ blobs[b].conn
+\* blob.Check(): closed -> error; within the valid interval -> ok without a probe; else probe the fetcher
+BlobCheckOK(b) == ~blobs[b].closed /\ (blobs[b].fresh \/ blobs[b].conn)
+BlobChecked(bs, b) ==
+    IF bs[b].closed \/ bs[b].fresh THEN bs
+    ELSE IF bs[b].conn THEN [bs EXCEPT ![b].fresh = TRUE, ![b].bad = FALSE]
+    ELSE [bs EXCEPT ![b].bad = TRUE, ![b].fresh = ~StampOnlyOnSuccess]
 \* l.Check(): closed? then the blob's Check
 LayerCheck(h) ==
     /\ At(h, "lhit")
     /\ LET l == hs[h].l
-           ok == ~layers[l].closed /\ BlobHealthy(layers[l].blob)
-       IN IF ok
-          THEN /\ Go(h, "held") /\ Unlock(h)
-               /\ Obs("LayerCheck", h, hs[h].n, TRUE, TRUE, "ok")
-          ELSE /\ Go(h, "lstale") /\ UNCHANGED lock
-               /\ Obs("LayerCheck", h, hs[h].n, TRUE, FALSE, "")
-    /\ UNCHANGED <<lc, bc, layers, blobs, fsd, hd, nres, nfault>>
+           b == layers[l].blob
+           ok == ~layers[l].closed /\ BlobCheckOK(b)
+       IN /\ blobs' = IF layers[l].closed THEN blobs ELSE BlobChecked(blobs, b)
+          /\ IF ok
+             THEN /\ Go(h, "held") /\ Unlock(h)
+                  /\ ObsC("LayerCheck", h, hs[h].n, TRUE, TRUE, "ok", b)
+             ELSE /\ Go(h, "lstale") /\ UNCHANGED lock
+                  /\ ObsC("LayerCheck", h, hs[h].n, TRUE, FALSE, "", IF layers[l].closed THEN 0 ELSE b)
+    /\ UNCHANGED <<lc, bc, layers, fsd, hd, nres, nfault>>
 
 \* done(true) of the stale layer
 LayerEvictStale(h) ==
@@ -221,10 +242,11 @@ BlobCacheGet(h) ==
 
 BlobCheck(h) ==
     /\ At(h, "bhit")
-    /\ LET ok == BlobHealthy(hs[h].b)
+    /\ LET ok == BlobCheckOK(hs[h].b)
        IN /\ Go(h, IF ok THEN "blob" ELSE "bstale")
-          /\ Obs("BlobCheck", h, hs[h].n, TRUE, ok, "")
-    /\ UNCHANGED <<lock, lc, bc, layers, blobs, fsd, hd, nres, nfault>>
+          /\ blobs' = BlobChecked(blobs, hs[h].b)
+          /\ ObsC("BlobCheck", h, hs[h].n, TRUE, ok, "", hs[h].b)
+    /\ UNCHANGED <<lock, lc, bc, layers, fsd, hd, nres, nfault>>
 
 BlobEvictStale(h) ==
     /\ At(h, "bstale")
@@ -253,7 +275,7 @@ RegistryResolve(h, arg) ==
     /\ At(h, "httpcache")
     /\ IF arg
        THEN /\ blobs' = Append(blobs, [name |-> hs[h].n, refs |-> 0, fin |-> TRUE, closed |-> FALSE,
-                                       hd |-> hs[h].hdp, conn |-> TRUE, files |-> FALSE])
+                                       hd |-> hs[h].hdp, conn |-> TRUE, fresh |-> TRUE, bad |-> FALSE, fetched |-> FALSE, files |-> FALSE])
             /\ hs' = [hs EXCEPT ![h].pc = "bnew", ![h].b = Len(blobs) + 1, ![h].hdp = 0]
             /\ UNCHANGED <<hd, lock, nfault>>
             /\ Obs("RegistryResolve", h, hs[h].n, TRUE, TRUE, "")
@@ -296,7 +318,12 @@ OpenMeta(h, arg) ==
                                          fin |-> TRUE, closed |-> FALSE, meta |-> TRUE, fsd |-> hs[h].fd,
                                          files |-> FALSE])
             /\ hs' = [hs EXCEPT ![h].pc = "lnew", ![h].l = Len(layers) + 1, ![h].b = 0, ![h].fd = 0]
-            /\ UNCHANGED <<lock, lc, bc, blobs, fsd, hd, nfault>>
+            \* reading footer and TOC of a blob nothing was fetched from yet goes to the registry; a successful
+            \* fetch stamps lastCheck ("we succeeded to access the blob"). One chunk covers the whole (small) blob,
+            \* so this is the only fetch in the life of a blob object
+            /\ blobs' = IF blobs[hs[h].b].fetched THEN blobs
+                         ELSE [blobs EXCEPT ![hs[h].b].fetched = TRUE, ![hs[h].b].fresh = TRUE, ![hs[h].b].bad = FALSE]
+            /\ UNCHANGED <<lock, lc, bc, fsd, hd, nfault>>
             /\ Obs("OpenMeta", h, hs[h].n, TRUE, TRUE, "")
        ELSE /\ nfault < MaxFault
             /\ nfault' = nfault + 1
@@ -383,11 +410,30 @@ Refresh(h, arg) ==
        IN /\ Extras \/ ~blobs[b].conn
           /\ (~arg) => nfault < MaxFault
           /\ nfault' = IF arg THEN nfault ELSE nfault + 1
-          /\ blobs' = IF ok THEN [blobs EXCEPT ![b].conn = TRUE] ELSE blobs
-          /\ Obs("Refresh", h, hs[h].n, arg, ok, "")
+          /\ blobs' = IF ok THEN [blobs EXCEPT ![b].conn = TRUE, ![b].fresh = TRUE, ![b].bad = FALSE] ELSE blobs
+          /\ ObsC("Refresh", h, hs[h].n, arg, ok, "", b)
     /\ UNCHANGED <<lock, lc, bc, layers, fsd, hd, hs, nres>>
 
+\* Layer.Check() by the caller that holds it (fs.Check does this for every mounted layer)
+Check(h) ==
+    /\ At(h, "held")
+    /\ LET l == hs[h].l
+           b == layers[l].blob
+           ok == ~layers[l].closed /\ BlobCheckOK(b)
+       IN /\ Extras \/ ~blobs[b].fresh
+          /\ blobs' = IF layers[l].closed THEN blobs ELSE BlobChecked(blobs, b)
+          /\ ObsC("Check", h, hs[h].n, TRUE, ok, "", IF layers[l].closed THEN 0 ELSE b)
+    /\ UNCHANGED <<lock, lc, bc, layers, fsd, hd, hs, nres, nfault>>
+
 (* environment                                                               *)
+
+\* valid_interval elapses (for every blob). Generation configs (~Extras): only where it makes a difference
+\* to the next check, i.e. some blob would still pass unprobed although its connection is broken
+Tick ==
+    /\ \E b \in BIds : ~blobs[b].closed /\ blobs[b].fresh /\ (Extras \/ ~blobs[b].conn)
+    /\ blobs' = [b \in BIds |-> [blobs[b] EXCEPT !.fresh = FALSE]]
+    /\ UNCHANGED <<lock, lc, bc, layers, fsd, hd, hs, nres, nfault>>
+    /\ Obs("Tick", 0, NoName, TRUE, TRUE, "")
 
 \* every fetcher of this name that exists now stops passing its check (e.g. an expired URL)
 BreakConn(n) ==
@@ -432,6 +478,8 @@ Next ==
     \/ \E h \in H : DoneAgain(h)
     \/ \E h \in H : CloseAgain(h)
     \/ \E h \in H, a \in BOOLEAN : Refresh(h, a)
+    \/ \E h \in H : Check(h)
+    \/ Tick
     \/ \E n \in Names : BreakConn(n)
     \/ \E n \in Names : TTLExpireLayer(n)
     \/ \E n \in Names : TTLExpireBlob(n)
@@ -482,6 +530,14 @@ FailedResolveLeaksNothing ==
           (\E b \in BIds : blobs[b].hd = i /\ ~blobs[b].closed) \/ (\E h \in H : hs[h].hdp = i)
 \* a Resolve fails only where a registry / metadata failure was injected (so resolving again works)
 ResolveAgainWorks == [][last'.ret = "err" => ~last'.arg]_vars
+
+\* a connectivity check (by a holder, or by Resolve on the cached layer / blob) does not report a connection
+\* healthy that was seen failing and has neither answered a probe nor been refreshed since: a held layer with a
+\* dead connection gets refreshed, and Resolve does not hand out a dead instance as healthy
+CheckActs == {"LayerCheck", "BlobCheck", "Check"}
+CheckNotFooled ==
+    [][(last'.act \in CheckActs /\ last'.ok /\ last'.cb \in BIds)
+          => (~blobs[last'.cb].bad \/ blobs[last'.cb].conn)]_vars
 
 (* internal consistency (documents the design; not part of the property)    *)
 RefsAccount ==
